@@ -25,6 +25,9 @@ def _texts(nodes, acc):
     return acc
 
 
+LINK_NAMES = ("t", "u", "v", "toString", "constructor", "__proto__")
+
+
 def links(res):
     """small groups rendered under node in several insertion orders: each <template is>, <include> and <wxs src> must reach
     the file the Coq linking model (Model/Link.v, Model/Path.v) names"""
@@ -33,7 +36,7 @@ def links(res):
     jobs = [json.loads(l) for l in p.stdout.decode("utf8").split("\n") if l]
     cmds = []
     for j in jobs:
-        for nm in ("t", "u", "v"):
+        for nm in LINK_NAMES:
             cmds.append("tmpl_owner\t" + "\t".join(j["model_args"]) + "\t" + enc(nm))
         cmds.append("path_dep\twxml\t" + "\t".join(j["include"]))
         cmds.append("path_dep\twxs\t" + "\t".join(j["wxs"]))
@@ -46,14 +49,15 @@ def links(res):
     found = n = 0
     k = 0
     for ji, j in enumerate(jobs):
-        m = model[5 * ji:5 * ji + 5]
+        per = len(LINK_NAMES) + 2
+        m = model[per * ji:per * ji + per]
         if any(x.startswith(("ERR", "EXC")) for x in m):
             raise Infra("link model failed: %s" % m)
         want = ""
-        inc = m[3]
+        inc = m[len(LINK_NAMES)]
         want += "(inc@%s)" % dec(inc.split(";")[0]) if inc != "?" else ""
-        want += "s@%s" % dec(m[4].split(";")[0]) if m[4] != "?" else ""
-        for nm, o in zip(("t", "u", "v"), m[:3]):
+        want += "s@%s" % dec(m[len(LINK_NAMES) + 1].split(";")[0]) if m[len(LINK_NAMES) + 1] != "?" else ""
+        for nm, o in zip(LINK_NAMES, m[:len(LINK_NAMES)]):
             if o.startswith("S"):
                 want += "[%s@%s]" % (nm, dec(o[1:]))
         for bi in range(len(j["bundles"])):
